@@ -12,9 +12,9 @@ Local Open Scope Z_scope.
    on every run; the proofs stop type-checking if the source deletes by anything else) *)
 Theorem C08_same_proxy : forall ops,
   let s := run init ops in
-  forall i t p rest,
+  forall i t p w rest,
     lost s = false -> nth_error (h_trk (hd s)) i = Some t -> t_proxy t = Some p ->
-    ch_oh s = MyRef (t_clid t) false :: rest ->
+    ch_oh s = MyRef (t_clid t) false w :: rest ->
     snd (step s RecvOH) = [EvDelivered p].
 Proof. exact same_proxy. Qed.
 Print Assumptions C08_same_proxy.
@@ -30,18 +30,18 @@ Print Assumptions C08_one_proxy_per_clid.
    statement is refuted by the 15-step D16 history, and holds exactly for the histories that satisfy the guard safe_op *)
 Theorem C08_same_proxy_refuted_under_clid_rule :
   exists ops, let s := run_k DelByClid init ops in
-  exists i t p rest,
+  exists i t p w rest,
     lost s = false /\ nth_error (h_trk (hd s)) i = Some t /\ t_proxy t = Some p /\
-    ch_oh s = MyRef (t_clid t) false :: rest /\ snd (step_k DelByClid s RecvOH) <> [EvDelivered p].
+    ch_oh s = MyRef (t_clid t) false w :: rest /\ snd (step_k DelByClid s RecvOH) <> [EvDelivered p].
 Proof. exact same_proxy_refuted_under_clid_rule. Qed.
 Print Assumptions C08_same_proxy_refuted_under_clid_rule.
 
 Theorem C08_same_proxy_guarded_any_rule : forall k ops,
   safe_run_k k init ops ->
   let s := run_k k init ops in
-  forall i t p rest,
+  forall i t p w rest,
     lost s = false -> nth_error (h_trk (hd s)) i = Some t -> t_proxy t = Some p ->
-    ch_oh s = MyRef (t_clid t) false :: rest ->
+    ch_oh s = MyRef (t_clid t) false w :: rest ->
     snd (step_k k s RecvOH) = [EvDelivered p].
 Proof. exact same_proxy_guarded. Qed.
 Print Assumptions C08_same_proxy_guarded_any_rule.
@@ -50,7 +50,7 @@ Print Assumptions C08_same_proxy_guarded_any_rule.
    allocated for exactly one object during the whole connection (so "the same object" = "the same clid") *)
 Theorem C08_send_names_object : forall ops x d,
   let s := run init ops in lost s = false ->
-  exists c, ch_oh (fst (step s (Send x d))) = ch_oh s ++ [MyRef c d] /\ In (c, x) (o_alloc (ow (fst (step s (Send x d))))).
+  exists c w, ch_oh (fst (step s (Send x d))) = ch_oh s ++ [MyRef c d w] /\ In (c, x) (o_alloc (ow (fst (step s (Send x d))))).
 Proof. exact send_names_object. Qed.
 Print Assumptions C08_send_names_object.
 
@@ -96,8 +96,9 @@ Print Assumptions C08_container_waits_for_all_gifts.
    lib/Gifts.v, `trun tinit ops` ranges over ALL interleavings of: owners send objects to B, B gives proxies to C (any
    number of times, proxies of several owners with colliding clids), B's application drops proxies at any point, C drops
    proxies, their-references / lookups / answers / decgifts delivered (lookups and answers in any order).
-   (1) what B puts on the wire for its proxy k: the proxy's FURL; the ghost `tr_want` is the object the proxy's
-       (connection, clid) was allocated for (C08_clid_names_one_object on the owner<->B connection) *)
+   (1) what B puts on the wire for its proxy k: the proxy's FURL -- the EMPTY one (None) if the proxy's tracker carries none;
+       the ghost `tr_want` is the object the proxy's (connection, clid) was allocated for (C08_clid_names_one_object on the
+       owner<->B connection) *)
 Theorem C08_gift_names_object : forall ops k b,
   let s := trun tinit ops in
   find_bp (bprox s) k = Some b ->
@@ -105,32 +106,118 @@ Theorem C08_gift_names_object : forall ops k b,
 Proof. exact give_names_object. Qed.
 Print Assumptions C08_gift_names_object.
 
-(* (2) whenever the owner processes the lookup of a gift's name -- however late, whatever B's application dropped in the
+(* (2) PARTIAL (guard faithful_run: every proxy B hands on has a FURL, no owner registers a second object under a name in
+       use; without it: C08_all_introductions_faithful_refuted, C08_introduction_refuted_by_name_takeover below).
+       Whenever the owner processes the lookup of a gift's name -- however late, whatever B's application dropped in the
        meantime -- the name resolves, and to that very object (the answer is a my-reference for it: C08_send_names_object on
        the owner<->C connection) *)
-Theorem C08_gift_lookup_finds_original : forall ops i m,
+Theorem C08_gift_lookup_finds_original_partial : forall ops i m,
+  faithful_run tinit ops ->
   let s := trun tinit ops in
   nth_error (lookups s) i = Some m ->
   exists rest, answers (fst (tstep s (TLookup i))) = rest ++ [{| an_id := tr_id m; an_got := Some (tr_want m); an_want := tr_want m |}].
 Proof. exact lookup_finds_original. Qed.
-Print Assumptions C08_gift_lookup_finds_original.
+Print Assumptions C08_gift_lookup_finds_original_partial.
 
-(* (3) the introduction completes at C with a proxy for the object B's proxy designates (calls through it reach the
-       original: C08_home_and_calls_reach_original on the owner<->C connection) *)
-Theorem C08_gift_same_object : forall ops i a,
+(* (3) PARTIAL (same guard): the introduction completes at C with a proxy for the object B's proxy designates (calls through
+       it reach the original: C08_home_and_calls_reach_original on the owner<->C connection) *)
+Theorem C08_gift_same_object_partial : forall ops i a,
+  faithful_run tinit ops ->
   let s := trun tinit ops in
   nth_error (answers s) i = Some a ->
   snd (tstep s (TAnswer i)) = [EvIntro (an_id a) (Some (an_want a)) (an_want a)] /\
   In (an_want a) (cprox (fst (tstep s (TAnswer i)))).
 Proof. exact intro_same_object. Qed.
-Print Assumptions C08_gift_same_object.
+Print Assumptions C08_gift_same_object_partial.
 
-(* end to end, for every history: every event is an introduction that succeeded with the intended object (none failed,
-   none yielded another object, remote_decgift never met an unknown gift) *)
-Theorem C08_all_introductions_faithful : forall ops,
+(* end to end.  FULL statement ("a proxy handed to a third party yields, after introduction, a proxy to the same original
+   object", every history):
+       forall ops, Forall (fun e => exists id w, e = EvIntro id (Some w) w) (trun_events tinit ops)
+   PARTIAL: proved for the histories that satisfy faithful_run --
+     (a) the gifted proxy's tracker has a FURL   (faithful_op (TGive k): bp_url <> None; exact: without it the gift FAILS)
+     (b) no owner registers an object under a name that is in use for another object (faithful_op (TRegister ..))
+   -- every event is an introduction that succeeded with the intended object (none failed, none yielded another object,
+   remote_decgift never met an unknown gift). *)
+Theorem C08_all_introductions_faithful_partial : forall ops,
+  faithful_run tinit ops ->
   Forall (fun e => exists id w, e = EvIntro id (Some w) w) (trun_events tinit ops).
-Proof. exact all_introductions_faithful. Qed.
-Print Assumptions C08_all_introductions_faithful.
+Proof. exact all_introductions_faithful_partial. Qed.
+Print Assumptions C08_all_introductions_faithful_partial.
+
+(* REFUTED without (a) -- known finding oracle/gift-not-delivered/tracker-recreated-without-url, replayed on real Tubs in every
+   run.  Two-party model, connection owner <-> giver: the 12-op history (the decref window of D16: the holder forgets the
+   tracker when the answer to its first decref arrives while the owner still counts the reference of a later one; the next
+   my-reference is not a first one and carries no FURL) ends with a LIVE proxy p of the giver that designates object 5,
+   through which calls reach 5, and whose tracker has no FURL ... *)
+Theorem C08_live_proxy_without_url_refuted :
+  exists ops p x, let s := run init ops in
+    lost s = false /\ holds s p /\ denotes s p x /\ proxy_url s p = None /\
+    ch_ho s = [Decref 1 1 2] /\
+    snd (step (run s [SendHome p true; RecvHO]) RecvHO) = [EvHome true (Some x)].
+Proof. exact live_proxy_without_url. Qed.
+Print Assumptions C08_live_proxy_without_url_refuted.
+
+(* ... three-party model: handed to a third party, that proxy travels as `their-reference <id> ""`; the introduction fails *)
+Theorem C08_all_introductions_faithful_refuted :
+  exists ops, ~ Forall (fun e => exists id w, e = EvIntro id (Some w) w) (trun_events tinit ops) /\
+              trun_events tinit ops = [EvIntro 1 None (0, 5)].
+Proof. exact all_introductions_faithful_refuted. Qed.
+Print Assumptions C08_all_introductions_faithful_refuted.
+
+(* ... and both composed: the export flag of the three-party history is computed from the two-party state *)
+Theorem C08_gift_of_recreated_proxy_refuted :
+  let s := run init urlless_ops in
+  exists p, holds s p /\ denotes s p 5 /\ proxy_url s p = None /\
+    trun_events tinit [TExport 0 5 1 (match proxy_url s p with Some _ => true | None => false end); TGive (0, 1); TRecvBC; TAnswer 0]
+      = [EvIntro 1 None (0, 5)].
+Proof. exact gift_of_recreated_proxy_refuted. Qed.
+Print Assumptions C08_gift_of_recreated_proxy_refuted.
+
+(* REFUTED without (b): _assignName takes a name over without a test; the older object's FURL then leads to the newer object *)
+Theorem C08_introduction_refuted_by_name_takeover :
+  trun_events tinit name_takeover_ops = [EvIntro 1 (Some (0, 20)) (0, 10)] /\ ~ faithful_run tinit name_takeover_ops.
+Proof. exact introduction_refuted_by_name_takeover. Qed.
+Print Assumptions C08_introduction_refuted_by_name_takeover.
+
+(* the interface between the two models, explicit.  A `TExport o x c withurl` of lib/Gifts.v stands for a delivery on the
+   connection owner <-> giver; what Gifts relies on is PROVED of lib/Refs.v for every reachable state: the giver's proxy
+   designates x and keeps designating it while held (E1), a FURL its tracker carries is x's own (E2).  That there IS a FURL
+   is not assumed: it is the input `withurl`, and the two-party model says exactly when a delivered proxy has one (E3). *)
+Theorem C08_export_interface : forall ops c x w rest,
+  let s := run init ops in
+  lost s = false -> ch_oh s = MyRef c false w :: rest -> In (c, x) (o_alloc (ow s)) ->
+  exists p, snd (step s RecvOH) = [EvDelivered p] /\
+    let s' := fst (step s RecvOH) in
+    denotes s' p x /\
+    (forall ops2, lost (run s' ops2) = false -> holds (run s' ops2) p ->
+       denotes (run s' ops2) p x /\ forall y, proxy_url (run s' ops2) p = Some y -> y = x).
+Proof. exact export_interface. Qed.
+Print Assumptions C08_export_interface.
+
+Theorem C08_delivered_proxy_url : forall ops c w rest,
+  let s := run init ops in lost s = false -> ch_oh s = MyRef c false w :: rest ->
+  exists p, snd (step s RecvOH) = [EvDelivered p] /\
+    proxy_url (fst (step s RecvOH)) p =
+      match tab_get (h_tab (hd s)) c with
+      | Some i => match nth_error (h_trk (hd s)) i with Some t => t_url t | None => None end
+      | None => w
+      end.
+Proof. exact delivered_proxy_url. Qed.
+Print Assumptions C08_delivered_proxy_url.
+
+(* where FURLs come from: the first my-reference of an object carries it, a re-send of an object the owner still counts
+   does not *)
+Theorem C08_first_reference_carries_url : forall ops x d,
+  let s := run init ops in lost s = false -> find_obj (o_tab (ow s)) x = None ->
+  exists c, ch_oh (fst (step s (Send x d))) = ch_oh s ++ [MyRef c d (Some x)].
+Proof. exact first_reference_carries_url. Qed.
+Print Assumptions C08_first_reference_carries_url.
+
+Theorem C08_resend_carries_no_url : forall ops x d e,
+  let s := run init ops in lost s = false -> find_obj (o_tab (ow s)) x = Some e ->
+  ch_oh (fst (step s (Send x d))) = ch_oh s ++ [MyRef (oe_clid e) d None].
+Proof. exact resend_carries_no_url. Qed.
+Print Assumptions C08_resend_carries_no_url.
 
 (* "Method calls through any of these reach the original object", for the proxy a THIRD PARTY obtained by introduction: one
    theorem across the two models.  lib/Gifts.v decides which object the owner answers the recipient's lookup with (the one
@@ -138,31 +225,33 @@ Print Assumptions C08_all_introductions_faithful.
    carries it from the owner's slicer to the call: the answer is a my-reference whose clid is allocated for x; whenever it
    is delivered the recipient holds a proxy p; every call through p / every time p is sent home, for as long as p is held,
    is resolved by the owner to x itself.  The interface (what Gifts assumes of that connection = what Refs proves):
-   RefsProofs.delivery_denotes, denotes_persists, call_names_object, call_reaches_object. *)
-Theorem C08_gift_proxy_calls_reach_original :
+   RefsProofs.delivery_denotes, denotes_persists, call_names_object, call_reaches_object.  PARTIAL: the three-party half needs the
+   guard faithful_run (see C08_all_introductions_faithful_partial); the two-party half holds for every history. *)
+Theorem C08_gift_proxy_calls_reach_original_partial :
   forall gops i m,
+    faithful_run tinit gops ->
     let g := trun tinit gops in
     nth_error (lookups g) i = Some m ->
     let x := snd (tr_want m) in
-    resolve g (tr_url m) = Some (tr_want m) /\
+    resolve_opt g (tr_url m) = Some (tr_want m) /\
     forall rops, let s := run init rops in lost s = false ->
-    exists c, ch_oh (fst (step s (Send x false))) = ch_oh s ++ [MyRef c false] /\
-    forall ops2 rest, let s2 := run (fst (step s (Send x false))) ops2 in
-      lost s2 = false -> ch_oh s2 = MyRef c false :: rest ->
+    exists c w, ch_oh (fst (step s (Send x false))) = ch_oh s ++ [MyRef c false w] /\
+    forall ops2 w2 rest, let s2 := run (fst (step s (Send x false))) ops2 in
+      lost s2 = false -> ch_oh s2 = MyRef c false w2 :: rest ->
       exists p, snd (step s2 RecvOH) = [EvDelivered p] /\
       forall ops3 k, let s3 := run (fst (step s2 RecvOH)) ops3 in
         lost s3 = false -> holds s3 p ->
         exists c', ch_ho (fst (step s3 (SendHome p k))) = ch_ho s3 ++ [ToOwner c' k] /\
         forall ops4 rest', let s4 := run (fst (step s3 (SendHome p k))) ops4 in
           lost s4 = false -> ch_ho s4 = ToOwner c' k :: rest' -> snd (step s4 RecvHO) = [EvHome k (Some x)].
-Proof. exact gift_proxy_calls_reach_original. Qed.
-Print Assumptions C08_gift_proxy_calls_reach_original.
+Proof. exact gift_proxy_calls_reach_original_partial. Qed.
+Print Assumptions C08_gift_proxy_calls_reach_original_partial.
 
 (* the same chain inside one connection: a delivered proxy designates the object its clid was allocated for, keeps
    designating it while held, and calls through it are resolved to that object *)
-Theorem C08_delivered_proxy_designates_object : forall ops c x rest,
+Theorem C08_delivered_proxy_designates_object : forall ops c x w rest,
   let s := run init ops in
-  lost s = false -> ch_oh s = MyRef c false :: rest -> In (c, x) (o_alloc (ow s)) ->
+  lost s = false -> ch_oh s = MyRef c false w :: rest -> In (c, x) (o_alloc (ow s)) ->
   exists p, snd (step s RecvOH) = [EvDelivered p] /\ denotes (fst (step s RecvOH)) p x /\ lost (fst (step s RecvOH)) = false.
 Proof. exact delivery_denotes. Qed.
 Print Assumptions C08_delivered_proxy_designates_object.
@@ -172,3 +261,21 @@ Theorem C08_proxy_keeps_designating : forall ops ops2 p x,
   denotes s p x -> lost (run s ops2) = false -> holds (run s ops2) p -> denotes (run s ops2) p x.
 Proof. exact denotes_persists. Qed.
 Print Assumptions C08_proxy_keeps_designating.
+
+(* "directly or nested inside other data, repeated within one call" for a value that holds a proxy handed to a third party:
+   such a value (a tuple holding a gift) stands, until the introduction completes, in every place that contains it as ONE
+   placeholder to which every place subscribes its update callback; when it completes, EVERY place -- any number of them, of
+   any kind (argument, list item, tuple item, set member, dict value), in any order -- receives the completed value.  The
+   five callbacks are re-read from the source on every run (gen: update_passes_list and its four siblings). *)
+Theorem C08_shared_placeholder_reaches_every_place : forall v ps,
+  fire (Some v) ps = map (fun _ => Some v) ps.
+Proof. exact shared_placeholder_reaches_every_place. Qed.
+Print Assumptions C08_shared_placeholder_reaches_every_place.
+
+(* ... and that is exactly what it takes: under any table of callbacks, every place after the first one whose callback does
+   not return its argument is left with nothing *)
+Theorem C08_shared_placeholder_lost_after_nonpassing : forall passes ps1 k ps2 v,
+  (forall x, In x ps1 -> passes x = true) -> passes k = false ->
+  fire_with passes (Some v) (ps1 ++ k :: ps2) = map (fun _ => Some v) (ps1 ++ [k]) ++ map (fun _ => None) ps2.
+Proof. exact shared_placeholder_lost_after_nonpassing. Qed.
+Print Assumptions C08_shared_placeholder_lost_after_nonpassing.
